@@ -404,63 +404,19 @@ Section Drivers.
     f_equal. apply IH. intros x Hx. apply Hw. now right.
   Qed.
 
-  (* CLI driver with the proposed fix: the same *)
-  Theorem cli_fixed_driver_accounts : forall p,
+  (* CLI driver (blots --format): the same *)
+  Theorem cli_driver_accounts : forall p,
     forallb wf_stmt p = true ->
-    doc_all_comments (format_cli_fixed e2s needs_parens record_key p) = program_comments p.
+    doc_all_comments (format_cli e2s needs_parens record_key p) = program_comments p.
   Proof.
-    intros p Hw. unfold format_cli_fixed, program_comments. rewrite forallb_forall in Hw.
+    intros p Hw. unfold format_cli, program_comments. rewrite forallb_forall in Hw.
     induction p as [|s r IH]; [reflexivity|].
     cbn [flat_map]. rewrite dac_app, IH by (intros x Hx; apply Hw; now right). f_equal.
     assert (Hs := Hw s (or_introl eq_refl)). destruct s as [k eol sl el].
-    cbn [cli_stmt_fixed stmt_comments]. rewrite !dac_app.
+    cbn [cli_stmt stmt_comments]. rewrite !dac_app.
     replace (doc_all_comments [Nl]) with (@nil string) by reflexivity. rewrite app_nil_r. f_equal.
     - destruct k; cbn in Hs; [now apply format_expr_accounts| |reflexivity].
       rewrite format_expr_accounts; [reflexivity|exact Hs].
     - now destruct eol.
-  Qed.
-
-  (* CLI driver as it is (main.rs:251 looks at the first inner pair only): the end-of-line
-     comment of EVERY statement is dropped, whatever the oracles *)
-  Theorem cli_driver_drops_eol : forall k c sl el,
-    wf_stmt (St k (Some c) sl el) = true ->
-    doc_all_comments (format_cli e2s needs_parens record_key [St k (Some c) sl el]) ++ [c]
-    = program_comments [St k (Some c) sl el].
-  Proof.
-    intros k c sl el Hw. unfold format_cli, program_comments. cbn [flat_map stmt_comments].
-    rewrite !app_nil_r. f_equal.
-    destruct k; cbn [cli_stmt]; cbn in Hw.
-    - rewrite dac_app, format_expr_accounts by exact Hw. now rewrite app_nil_r.
-    - rewrite dac_app, format_expr_accounts by exact Hw. now rewrite app_nil_r.
-    - reflexivity.
-  Qed.
-
-  Corollary cli_driver_refuted : exists p,
-    forallb wf_stmt p = true /\
-    doc_all_comments (format_cli e2s needs_parens record_key p) <> program_comments p.
-  Proof.
-    exists [St (SExpr (EAssign "x" (EId "y"))) (Some "// note"%string) 1%Z 1%Z]. split; [reflexivity|].
-    intros H. pose proof (cli_driver_drops_eol (SExpr (EAssign "x" (EId "y"))) "// note" 1%Z 1%Z eq_refl) as D.
-    rewrite H in D. cbn in D. discriminate.
-  Qed.
-
-  (* without end-of-line comments the CLI driver accounts for everything *)
-  Definition no_eol (s : stmt) : bool := match s with St _ None _ _ => true | _ => false end.
-  Theorem cli_driver_accounts_without_eol : forall p,
-    forallb wf_stmt p = true -> forallb no_eol p = true ->
-    doc_all_comments (format_cli e2s needs_parens record_key p) = program_comments p.
-  Proof.
-    intros p Hw Hn. unfold format_cli, program_comments.
-    rewrite forallb_forall in Hw, Hn.
-    induction p as [|s r IH]; [reflexivity|].
-    cbn [flat_map]. rewrite dac_app.
-    rewrite IH; [|intros x Hx; apply Hw; now right|intros x Hx; apply Hn; now right]. f_equal.
-    assert (Hs := Hw s (or_introl eq_refl)). assert (Hs2 := Hn s (or_introl eq_refl)).
-    destruct s as [k [c|] sl el]; [discriminate|].
-    cbn [stmt_comments]. rewrite app_nil_r.
-    destruct k; cbn [cli_stmt]; cbn in Hs.
-    - rewrite dac_app, format_expr_accounts by exact Hs. now rewrite app_nil_r.
-    - rewrite dac_app, format_expr_accounts by exact Hs. now rewrite app_nil_r.
-    - reflexivity.
   Qed.
 End Drivers.
